@@ -29,7 +29,7 @@ func VerifRevolutRow() {
 	plain = whole + amt[len(shown):]
 	bal := v.Digits("b", 3) + "." + v.Digits("bf", 2)
 	other := v.Digits("o", 2) + "." + v.Digits("of", 2)
-	kind := v.Choice("kind", 3) // 0 paid out, 1 paid in, 2 sold EUR to CHF
+	kind := v.Choice("kind", 4) // 0 paid out, 1 paid in, 2 sold EUR to CHF, 3 card payment abroad (annotated with the foreign amount)
 	var row string
 	switch kind {
 	case 0:
@@ -38,6 +38,8 @@ func VerifRevolutRow() {
 		row = "17 Aug 2020;Café  Zürich;; " + amt + ";;; " + bal + "; ;Transport\n"
 	case 2:
 		row = "17 Aug 2020;Sold EUR to CHF; " + amt + ";;CHF  " + other + ";; " + bal + ";FX-rate 1.08;General\n"
+	case 3:
+		row = "17 Aug 2020;Amazon US; " + amt + ";;CHF  " + other + ";; " + bal + ";FX-rate 1.08;Shopping\n"
 	}
 	reg := registry.New()
 	acc := reg.Accounts().MustGet("Assets:Revolut")
@@ -62,7 +64,7 @@ func VerifRevolutRow() {
 	}
 	t := trx[0]
 	v.Assert(t.Date.Equal(date.Date(2020, 8, 17)), "transaction-on-the-row-date")
-	if kind != 2 {
+	if kind < 2 {
 		v.Assert(t.Description == "Café Zürich Transport", "description-is-the-row-text")
 	}
 	a, _ := decimal.NewFromString(plain)
@@ -83,7 +85,7 @@ func VerifRevolutRow() {
 		}
 	}
 	switch kind {
-	case 0:
+	case 0, 3:
 		v.Assert(eur.Equal(a.Neg()) && chf.IsZero(), "effect-on-import-account-is-the-signed-row-amount")
 	case 1:
 		v.Assert(eur.Equal(a) && chf.IsZero(), "effect-on-import-account-is-the-signed-row-amount")
